@@ -66,7 +66,7 @@ type helperClass struct {
 }
 
 func runC20(c *core.Ctx) {
-	c.Explanation = "Context analysis of the text/template sources compiled into snippet/template.go, decided without executing them: the template constants are extracted from the typed syntax, parsed with text/template/parse, and every path through their if/range structure is unrolled into a VCL skeleton whose lexical context (code, double-quoted string, long string, line/block comment) is tracked to each interpolation. (tmpl.escape) every interpolation of a string-kinded resource field inside a double-quoted string passes through a helper that encodes `\"` and `%` (classified from the helper's SSA), inside a line comment through a helper that removes line feeds, never inside a long string; (tmpl.ident) string fields interpolated as code are sanitised to identifier characters, or are one of the named code-valued / identifier-restricted fields; backend names are written with the same prefix and sanitiser where they are declared and where a director refers to them; (tmpl.fields) every field of the resource structs is interpolated by its template; (tmpl.acl) the `!` marker is printed exactly under `if .Negated` and the mask exactly under `if .Subnet`; (tmpl.map) both fetcher implementations (Terraform plan, Fastly API) fill every such field from the source field of the same name. Necessary for: arbitrary printable values cannot terminate a literal or be decoded into something else, and nothing of a resource is dropped or crossed."
+	c.Explanation = "Context analysis of the text/template sources compiled into snippet/template.go, decided without executing them: the template constants are extracted from the typed syntax, parsed with text/template/parse, and every path through their if/range structure is unrolled into a VCL skeleton whose lexical context (code, double-quoted string, long string, line/block comment) is tracked to each interpolation. (tmpl.escape) every interpolation of a string-kinded resource field inside a double-quoted string passes through a helper that encodes `\"` and `%` (classified from the helper's SSA), inside a line comment through a helper that removes line feeds, never inside a long string; (tmpl.ident) string fields interpolated as code are sanitised to identifier characters, or are one of the named code-valued / identifier-restricted fields; backend names are written with the same prefix and sanitiser where they are declared and where a director refers to them; (tmpl.fields) every field of the resource structs is interpolated by its template; (tmpl.acl) the `!` marker is printed exactly under `if .Negated` and the mask exactly under `if .Subnet`; (tmpl.map) both fetcher implementations (Terraform plan, Fastly API) fill every such field from the source field of the same name. Necessary for: arbitrary printable values cannot terminate a literal or be decoded into something else, and nothing of a resource is dropped or crossed. The escaping helper is classified by enumerating all byte values (bytes >= 0x80 treated alike); (tmpl.optptr) optional plan attributes are dereferenced behind a nil test."
 	c.NotCovered = []string{"the text/template engine and the VCL parser's escape decoding (C01/C02)", "JSON decoding of plans and API responses", "user-written VCL snippets, which are VCL source by definition"}
 	prog := c.Prog
 	pk := prog.Pkg("snippet")
